@@ -30,44 +30,26 @@ sys.setrecursionlimit(20000)
 # A (program, input) pair is judged only if jq 1.6 agrees with this model run with these switched
 # back to the 1.6 behaviour.  Each entry: what changed, and where it is documented / recorded.
 CHANGES = {
-    "try-downstream": "1.6 try/catch (and `?`) also catches errors raised downstream of the body's outputs "
-                      "(jq 1.7 NEWS: 'try catches more than it should' #2750); 1.6 `try A catch B` re-raises `break`, "
-                      "1.7.1 catches it (golden try_break_not_caught)",
-    "error-null": "1.6 `error(null)` behaves like `empty` inside try / is a silent failure outside; 1.7.1 raises null "
+    "try-downstream": "1.6 try/catch and `?` also catch errors raised DOWNSTREAM of the body's outputs, and `try A catch B` re-raises "
+                      "`break`; 1.7.1 catches only errors of the body, and `try break $l catch B` runs B "
+                      "(jq 1.7 NEWS 'try catches more than it should' #2750; golden try_break_not_caught, *_error_after_output)",
+    "error-null": "1.6: `error(null)` is indistinguishable from backtracking (no output, no failure); 1.7.1 raises null "
                   "(jq 1.7 NEWS; golden try_catch_null, error_uncaught_null_payload)",
-    "limit-0": "1.6 `limit(0; f)` emits the first output of f; 1.7.1 emits nothing (jq 1.7 NEWS #1994)",
-    "modify-first-or-delete": "`p |= f`: 1.6 keeps the LAST output of f and turns `empty` into null; 1.7.1 uses the FIRST output "
-                              "and deletes the path on `empty` (jq 1.7 NEWS; golden update_multi_output_rhs)",
-    "from-entries": "from_entries: 1.6 accepts k/v/K/V aliases and stringifies non-string keys; 1.7.1 definition as recorded in "
-                    "docs/compliance/jq/limitations.md (golden from_entries_*, error table)",
-    "ascii-case-jq": "ascii_downcase/ascii_upcase: C builtin in 1.6 ('ascii_downcase input must be a string'); 1.7.1 reports "
-                     "'explode input must be a string' (jq-error-messages.tsv)",
-    "isempty": "isempty(g): 1.6 `0 == ((label $go | g | (1, break $go)) // 0)` evaluates g past its first output; 1.7.1 stops (NEWS)",
-    "any-all-short-circuit": "any/all(gen; cond): 1.7.1 short-circuits (golden any_gen_cond_satisfied_before_error); 1.6 reduces over all",
-    "implode-checks": "implode: 1.6 asserts on non-numeric / invalid codepoints, 1.7.1 raises (error table)",
-    "nan-order": "1.7.1 sorts nan below every number and nan < nan is true (golden nan_*); 1.6 compares with C doubles",
+    "limit-0": "1.6: `limit(0; f)` emits the first output of f; 1.7.1 emits nothing (jq 1.7 NEWS)",
+    "modify-deferred-delete": "`p |= empty`: 1.6 deletes each path at once (`[1,2,3] | .[] |= empty` is [2]); 1.7.1 collects the paths and "
+                              "deletes them after the loop (jq 1.7 NEWS, #2133)",
+    "from-entries": "from_entries: 1.6 `map({(.key // .k // .name // .Name // .K // .Key): ...}) | add + {} // {}`; 1.7.1 as quoted from the "
+                    "pinned binary in docs/compliance/jq/limitations.md (golden from_entries_*, error table)",
+    "any-all-short-circuit": "any/all(gen; cond): 1.7.1 stops at the first decisive output (golden any_gen_cond_satisfied_before_error); "
+                             "1.6 evaluates the generator to the end",
     "indices-overlap": "indices/index/rindex on strings: 1.6 skips overlapping matches, 1.7.1 reports them (jq 1.7 NEWS)",
-    "walk-def": "walk(f): 1.6 rebuilds objects key by key (sorted via keys), 1.7.1 is `def w: if object then map_values(w) ...` (NEWS)",
-    "tojson-number-literal": "1.7.1 keeps the canonical decimal literal of unchanged numbers (golden number_literal_*); the fragment "
-                             "admits only numbers whose literal equals their shortest double rendering, so this never shows",
-    "ltrimstr-etc": "none",
-    "error-exit": "1.6 exits 5 only when the LAST input failed; single-input runs are identical",
-    "getpath-null-path-error": "none",
-    "base64d-error": "@base64d on undecodable input: 1.7.1 message as in limitations.md; 1.6 returns partial garbage",
-    "splits-null": "none",
-    "if-without-else": "1.7 allows `if c then a end`; 1.6 does not compile it (jq 1.7 NEWS)",
-    "input-line-in-error": "none",
-    "object-key-error": "{(k): v} with non-string k: same sentence in both; listed for completeness",
-    "tonumber-messages": "none",
-    "min-max-by-empty": "none",
-    "slice-paths": "none",
-    "delpaths-sort": "none",
-    "string-multiply-zero": "`\"x\" * 0`: 1.6 and 1.7.1 both give null (changed only in 1.8)",
-    "string-repeat-lt1": "1.6: `\"x\" * 0.5` is null (n <= 0 after truncation rule `n > 0` on the double: 0.5 > 0 gives \"x\"): same in both",
-    "alt-destructure": "`?//` is outside the fragment",
-    "abs-toarray-trim-pick-etc": "builtins added in 1.7/1.7.1 (pick, abs, toarray, trim, ltrim, rtrim, have_literal_numbers, "
-                                 "splits/0, @base32d, debug/1, scan/2, getpath in paths, add/1, ...) have no 1.6 witness and no recorded "
-                                 "trace: outside the fragment",
+    "walk-def": "walk(f): 1.6 rebuilds objects key by key, 1.7.1 is `def w: if type == \"object\" then map_values(w) ...` (jq 1.7 NEWS)",
+    "if-without-else": "`if c then a end` (else branch = `.`) is new in 1.7 and does not compile in 1.6 (jq 1.7 NEWS)",
+    "slice-sentence": "1.6 'Start and end indices of an array slice must be numbers' and missing start/end keys default; 1.7.1 "
+                      "'Array/string slice indices must be integers' and missing keys are an error (jq-error-messages.tsv)",
+    "uri-reserved": "@uri: 1.6 keeps ! * ' ( ) unescaped, 1.7.1 escapes every reserved character (jq 1.7 NEWS)",
+    "number-literals": "1.7.1 keeps the canonical decimal literal of unchanged numbers (golden number_literal_*); only numbers whose "
+                       "literal equals their shortest double rendering are admitted, so the difference cannot show",
 }
 
 
@@ -165,10 +147,7 @@ class Model:
             return 0
         if ra == 3:
             if a != a or b != b:
-                if self.c16:
-                    # C: (da < db) ? -1 : (da == db) ? 0 : 1
-                    return -1 if a < b else (0 if a == b else 1)
-                # 1.7.1: a nan is compared as null against the other number => always "less"
+                # a nan is compared as null against the other number => always "less" (golden nan_*; jq 1.6 behaves alike)
                 if a != a:
                     return -1
                 return 1
@@ -1786,7 +1765,7 @@ class Interp(Model):
 
 
 # jq-coded builtins whose 1.6 and 1.7.1 definitions differ (BUILTINS_JQ_16 / BUILTINS_JQ_171)
-SENSITIVE_DEFS = {("_modify", 2), ("limit", 2), ("isempty", 1), ("any", 2), ("all", 2), ("from_entries", 0), ("walk", 1)}
+SENSITIVE_DEFS = {("_modify", 2), ("limit", 2), ("any", 2), ("all", 2), ("from_entries", 0), ("walk", 1)}
 
 
 class _Fresh:
@@ -1979,9 +1958,6 @@ def make_natives(I):
             raise err("Path must be specified as an array")
         cur = t
         for key in p:
-            if cur is None and I.c16:
-                # 1.6 jv_getpath returns null as soon as the value is null
-                return None
             cur = index(cur, key)
         return cur
 
@@ -2112,8 +2088,12 @@ def make_natives(I):
                 s, n = (a, b) if ak == "string" else (b, a)
                 if n != n:
                     raise Unsupported("string * nan")
-                if n <= 0:
+                if n < 0:
                     return None
+                if n == 0:
+                    # 1.6 answers null; the repository notes jq >= 1.7 answers "" (jqlang/jq#1593, 'confirmed live'): no recorded
+                    # trace, and the two sources disagree -> outside the fragment
+                    raise Unsupported("string repeated zero times (null in 1.6, reportedly \"\" in 1.7.x)")
                 if not is_int_valued(n):
                     raise Unsupported("string repeated a fractional number of times")
                 if n * len(s) > 100000:
@@ -2653,7 +2633,7 @@ def first: .[0];
 def last(f): reduce f as $x (null; $x);
 def last: .[-1];
 def nth($n): .[$n];
-def nth($n; f): if $n < 0 then _unsupported("nth with a negative count (message changed after 1.6, no recorded trace)") else last(limit($n + 1; f)) end;
+def nth($n; f): if $n < 0 then error("nth doesn't support negative indices") else last(limit($n + 1; f)) end;
 def until(cond; update): def _until: if cond then . else (update | _until) end; _until;
 def while(cond; update): def _while: if cond then ., (update | _while) else empty end; _while;
 def repeat(f): def _repeat: ., (f | _repeat); _repeat;
@@ -2687,6 +2667,7 @@ def ascii_downcase: explode | map( if 65 <= . and . <= 90 then . + 32  else . en
 def ascii_upcase: explode | map( if 97 <= . and . <= 122 then . - 32  else . end) | implode;
 def INDEX(stream; idx_expr): reduce stream as $row ({}; .[$row|idx_expr|tostring] |= $row);
 def INDEX(idx_expr): INDEX(.[]; idx_expr);
+def isempty(g): label $go | (g|false, break $go), true;
 def IN(s): any(s == .; .);
 def IN(src; s): any(src == s; .);
 def any(f): any(.[]; f);
@@ -2729,19 +2710,15 @@ def _modify(paths; update):
     | . as $x | $x[0] | delpaths($x[1]);
 def limit($n; f): if $n > 0 then label $out | foreach f as $item (0; .+1; $item, if . >= $n then break $out else empty end)
                   elif $n == 0 then empty else f end;
-def isempty(g): label $go | (g|false, break $go), true;
 def any(generator; condition): isempty(first(generator|condition or empty)) | not;
 def all(generator; condition): isempty(first(generator|condition and empty));
-def from_entries: reduce .[] as $x ({};
-    . + { ($x | if type == "object" then (.key // .Key // .name // .Name) else .key end):
-          ($x | if has("value") then .value else .Value end) });
+def from_entries: map({(.key // .Key // .name // .Name): (if has("value") then .value else .Value end)}) | add | . //= {};
 def walk(f): def w: if type == "object" then map_values(w) elif type == "array" then map(w) else . end | f; w;
 '''
 
 BUILTINS_JQ_16 = r'''
 def _modify(paths; update): reduce path(paths) as $p (.; label $out | (setpath($p; getpath($p) | update) | ., break $out), delpaths([$p]));
 def limit($n; f): if $n < 0 then f else label $out | foreach f as $item (0; .+1; $item, if . >= $n then break $out else empty end) end;
-def isempty(g): 0 == ((label $go | g | (1, break $go)) // 0);
 def any(generator; condition): [label $out | foreach (generator|condition) as $cond (false; if . then break $out elif $cond then true else . end; if . then . else empty end)] | length == 1;
 def all(generator; condition): [label $out | foreach (generator|condition) as $cond (true; if .|not then break $out elif $cond then . else false end; if .|not then . else empty end)] | length == 0;
 def from_entries: map({(.key // .k // .name // .Name // .K // .Key): (if has("value") then .value else .Value end)}) | add + {} // {};
